@@ -42,6 +42,9 @@ type Scenario struct {
 	// first touched concurrently. Docs then only gives the number of documents; the run-alone
 	// outcomes are computed on the same documents after the execution.
 	Fresh bool
+	// Late: the run-alone outcomes are computed AFTER the execution (a sequential baseline run
+	// first would warm up whatever the library builds lazily - per Go type, per array length)
+	Late bool
 }
 
 var freshCounter = 1000
@@ -248,7 +251,7 @@ func (sc *Scenario) Build() *World {
 		w.Fns = append(w.Fns, f)
 	}
 	for _, d := range sc.Docs {
-		if sc.Fresh {
+		if sc.Fresh && d == "" {
 			w.Docs = append(w.Docs, freshDoc())
 		} else {
 			w.Docs = append(w.Docs, Decode(d))
@@ -277,7 +280,7 @@ func (w *World) Body(t int) func() {
 // Expected computes the run-alone outcome of every operation on fresh objects.
 func (sc *Scenario) Expected() [][]string {
 	out := make([][]string, len(sc.Threads))
-	if sc.Fresh {
+	if sc.Fresh || sc.Late {
 		return out // computed after the execution, on the execution's own documents (ExpectedAfter)
 	}
 	for t, ops := range sc.Threads {
@@ -315,7 +318,7 @@ func (w *World) ExpectedAfter() [][]string {
 // Check compares the outcomes of an execution with the run-alone outcomes and verifies that
 // shared documents are unchanged and shared functions still behave like freshly parsed ones.
 func (w *World) Check(expected [][]string) (ok bool, detail string) {
-	if w.Sc.Fresh {
+	if w.Sc.Fresh || w.Sc.Late {
 		expected = w.ExpectedAfter()
 		for t := range expected {
 			for k := range expected[t] {
@@ -460,8 +463,8 @@ func Scenarios(tier string) []Scenario {
 		b.WriteString("]")
 		return b.String()
 	}
-	for _, path := range []string{`$[*]`, `$[0:]`, `$..*`, `$[?(@ > 1)]`} {
-		out = append(out, Scenario{Name: "S9b long arrays " + path, Fns: []FnSpec{{path, 0}}, Docs: []string{arr(70), arr(90)},
+	for _, path := range []string{`$[*]`, `$[0:]`, `$..*`, `$[?(@ > 1)]`, `$[*,0]`, `$[*,*]`, `$[::2]`, `$[::-1]`, `$[1,-1,5:]`} {
+		out = append(out, Scenario{Name: "S9b long arrays " + path, Fns: []FnSpec{{path, 0}}, Docs: []string{arr(70), arr(90)}, Late: true,
 			Threads: [][]Op{{call(0, 0)}, {call(0, 1)}}})
 	}
 	// S8: non-JSON leaves of Go types the process has not seen before, every kind of step applied to them
